@@ -1,8 +1,20 @@
 ---------------------------- MODULE MC_MMR ----------------------------
-EXTENDS MMR, TLC, Json
+EXTENDS MMRViews, TLC, Json
 \* Direction A generator: one line per small MMR with its root term and every leaf's proof path.
 Case(s) == [size |-> Size(s), nl |-> NL(s), root |-> RootTerm(s), peaks |-> s.pk,
             proofs |-> [i \in 1..NL(s) |-> [pos |-> s.lp[i], d |-> Data(i-1), path |-> ProofPathD(s, s.lp[i])]]]
-Emit == (KeepTerms(m) /\ NL(m) > 0) => PrintT(<<"MMRCASE", ToJson(Case(m))>>)
+\* ... plus what the replay needs for the views (MMRViews.tla): removal patterns, the size of the view at every
+\* earlier leaf count (its root / peaks / proofs are those of the case of that leaf count: ViewsOK), the size
+\* RewindablePMMR::rewind(q) must land on, and which single altered hash PMMR::validate must refuse.
+CaseV(s) == Case(s) @@
+  [rms    |-> [j \in 1..Len(RmPatterns(s)) |->
+                 [name |-> RmPatterns(s)[j].name,
+                  pos  |-> [x \in 1..Len(RmPatterns(s)[j].ix) |-> s.lp[RmPatterns(s)[j].ix[x]]]]],
+   views  |-> [k \in 1..NL(s) |-> [k |-> k, size |-> SizeAt(s, k)]],
+   rwsize |-> [q \in 1..(Size(s) + 1) |-> RewindSizeD(s, q - 1)],
+   vbound |-> [p \in 1..Size(s) |-> BoundByValidateD(s, p - 1)],
+   peakterms |-> [i \in 1..Len(s.pk) |-> s.tm[s.pk[i] + 1]],
+   nodes  |-> s.tm]
+Emit == (KeepTerms(m) /\ NL(m) > 0) => PrintT(<<"MMRCASE", ToJson(CaseV(m))>>)
 
 =======================================================================
